@@ -22,6 +22,18 @@ class Resolver:
             elif isinstance(s, ast.NamedExpr):
                 self._bind(s.target, s.value)
         self.params = set(f.params)
+        # locals that are changed in place after their definition are objects, not values: never expand them
+        self._mutated: set[str] = set()
+        for s in ast.walk(f.node):
+            if isinstance(s, ast.Call) and isinstance(s.func, ast.Attribute) and isinstance(s.func.value, ast.Name) and s.func.attr in (
+                "append", "extend", "add", "update", "insert", "remove", "discard", "pop", "clear", "sort", "setdefault", "popitem", "reverse"):
+                self._mutated.add(s.func.value.id)
+            if isinstance(s, (ast.Assign, ast.AugAssign, ast.Delete)):
+                for t in (s.targets if isinstance(s, (ast.Assign, ast.Delete)) else [s.target]):
+                    if isinstance(t, ast.Subscript) and isinstance(t.value, ast.Name):
+                        self._mutated.add(t.value.id)
+                    if isinstance(s, ast.AugAssign) and isinstance(t, ast.Name):
+                        self._mutated.add(t.id)
 
     def _bind(self, t: ast.expr, v: ast.expr) -> None:
         if isinstance(t, ast.Name):
@@ -36,7 +48,7 @@ class Resolver:
 
     def single_def(self, name: str) -> ast.expr | None:
         d = self._defs.get(name, [])
-        return d[0] if len(d) == 1 and name not in self.params else None
+        return d[0] if len(d) == 1 and name not in self.params and name not in self._mutated else None
 
     def helper_return(self, call: ast.Call):
         """`self._helper(args)` where the helper's body ends in one return: (helper, return expr, binding)"""
